@@ -215,10 +215,13 @@ def parseInter : Nat → List String → ICase → Option ICase
       let t := pid t
       if k == "sd" || k == "za" then
         match rest with
-        | _ :: _ :: rest =>
-          match c.add (if k == "sd" then .sdistance f t v else .zangle f t v) with
-          | some c => parseInter n rest c
-          | none => none
+        | a :: b :: rest =>
+          match num? a, num? b with
+          | some a, some b =>
+            match c.add (if k == "sd" then .sdistance f t v a b else .zangle f t v) with
+            | some c => parseInter n rest c
+            | none => none
+          | _, _ => none
         | _ => none
       else
         let c' : Option ICase :=
